@@ -208,6 +208,16 @@ def gen_cases(tier: str, seed: int) -> List[Dict]:
                 nspec = S.make_numeric_spec("c", kind, shape_n, rng, 2)
                 operands = [a, nspec] if side == 0 else [nspec, a]
                 add(op, operands, [op, 0, 1], tag="-%s%d" % (kind, side))
+    # 3b. plain array partners in other memory layouts (Fortran order, strided view, read-only), 2-d with both sides > 1
+    for layout in ("F", "strided", "readonly"):
+        for op in ("add", "sub", "mul"):
+            side = rng.choice([0, 1])
+            shape_n = rng.choice([(2, 3), (3, 2)])
+            a = poly("a", rng.choice(S.NAME_SETS[:3]), rng.choice([(), shape_n, (shape_n[1],)]), rng.choice([1, 2]), 2)
+            nspec = S.make_numeric_spec("c", "array", shape_n, rng, 3)
+            nspec["layout"] = layout
+            operands = [a, nspec] if side == 0 else [nspec, a]
+            add(op, operands, [op, 0, 1], tag="-array-%s%d" % (layout, side))
     # 4. numpoly.<fn> spelling of the same operators (numpy spellings are C08's business)
     for op in ("add", "sub", "mul"):
         a = poly("a", ("q0", "q1"), (2,), 2, budget // 2)
